@@ -59,9 +59,11 @@ func genC03DB(rt *rapid.T, max int) []Cmd {
 				db[i].Tags = append(db[i].Tags, t)
 			}
 		}
-		// pipeline-ness is unambiguous in this check: the flag says it
-		if strings.Contains(db[i].Command, "|") || strings.Contains(db[i].Command, "&&") || strings.Contains(db[i].Command, ">>") || strings.Contains(strings.ToLower(db[i].Command), "pipe") {
-			db[i].Pipeline = true
+		// entries that are pipelines by their text only (flag false): eligibility must not depend on how the
+		// entry reached the database
+		if rapid.IntRange(0, 7).Draw(rt, "textpipe") == 0 {
+			db[i].Pipeline = false
+			db[i].Command += rapid.SampledFrom([]string{" | sort", " && echo ok", " >> out.log", " | PIPE"}).Draw(rt, "pipetext")
 		}
 	}
 	return db
@@ -162,7 +164,7 @@ func refIndex(cmds []database.Command) ([]refDoc, [4]float64, map[string]int) {
 		for t := range seen {
 			df[t]++
 		}
-		docs[i].pipe = c.Pipeline
+		docs[i].pipe = database.VerifIsPipeline(&cmds[i]) // the repository's own predicate, taken as the definition
 	}
 	var avg [4]float64
 	for f := 0; f < 4; f++ {
